@@ -239,16 +239,20 @@ func runC05(c *Ctx) {
 				root interface{}
 			}{{"location", nil}, {"typed", typed}, {"generic", generic}}
 			var outs []string
+			// the answer must not depend on the options that steer EXPANSION (continue on error, skip schemas,
+			// absolute circular refs): resolution follows one reference and reports what it finds
+			contOnErr, skipSch, absCirc := c.Coin(0.4), c.Coin(0.2), c.Coin(0.2)
 			for _, f := range forms {
 				if f.root != nil && base != w.Root {
 					continue // a supplied root IS the document at the base location
 				}
-				opts := &spec.ExpandOptions{RelativeBase: base, PathLoader: loader}
+				opts := &spec.ExpandOptions{RelativeBase: base, PathLoader: loader, ContinueOnError: contOnErr, SkipSchemas: skipSch, AbsoluteCircularRef: absCirc}
 				got, gerr, pan := resolveAs(t.kind, f.root, refText, opts)
 				cs := map[string]interface{}{"world": wj, "base": base, "ref": refText, "kind": t.kind, "root": f.name, "target": key.String()}
 				c.Count(fmt.Sprint(wj, base, refText, t.kind, f.name), len(t.toks) > 0)
 				c.Hit("root:" + f.name)
 				c.Hit("kind:" + t.kind)
+				c.Hit(fmt.Sprintf("continueOnError:%v", contOnErr))
 				if designates {
 					c.Hit("designates:yes")
 				} else {
